@@ -188,6 +188,14 @@ def run_unit(unit, tier='quick', _extra_fns=None):
             obligations.append(dict(id='%s.%s' % (oid, slug), engine='verus', unit=unit, kind='proof', status='fail',
                                     detail='%s — %s' % (e['kind'], where or src_line(e['line'])), raw=e['text'],
                                     twin=U.get('twins', {}).get(label)))
+    if _extra_fns and any(o['status'] == 'fail' for o in obligations):
+        # the edited tree calls helper functions this unit has no contract for: they were extracted verbatim, but a caller only
+        # sees a callee's contract, so a failed obligation here cannot be told from "the helper needs a contract" — undecided
+        nfail = sum(1 for o in obligations if o['status'] == 'fail')
+        undecided.append('verus %s: the extracted code calls %s, which this unit has no contract for (a helper introduced by the '
+                         'change?): %d failed obligation(s) may only mean that the helper needs a contract'
+                         % (unit, ', '.join(sorted(_extra_fns)), nfail))
+        obligations = [o for o in obligations if o['status'] != 'fail']
     n_fn = sum(1 for r in asm.regions if r[3] in ('fn', 'lemma'))
     if n_fn == 0:
         undecided.append('verus %s: no obligations generated' % unit)
